@@ -26,6 +26,9 @@ type Step struct {
 	OptOut     bool              `json:"optout,omitempty"`
 	NoPresence bool              `json:"nopresence,omitempty"`
 	Pres       map[string]string `json:"pres,omitempty"`
+	// Sx: the FaultN-th storage call of the request fails, before or after it took effect
+	FaultN     int  `json:"fn,omitempty"`
+	FaultAfter bool `json:"fa,omitempty"`
 }
 
 // History is a complete scenario.
@@ -52,6 +55,7 @@ type StepObs struct {
 	Clone   string `json:"clone,omitempty"`   // Root().Marshal() of its clone
 	Skipped bool   `json:"skipped,omitempty"` // the step was not applicable (client not attached, ...)
 	Pushed  int    `json:"pushed,omitempty"`  // local changes produced by the step
+	Fault   string `json:"fault,omitempty"`   // Sx: which storage call failed ("Call/before|after[/window]"), "" = the request had fewer calls
 }
 
 // LogRow is a row of the server's change log.
